@@ -36,6 +36,19 @@ EXCEPTIONS = {
         "called only from produce_shape_map_according_to_input under all_classes_mode=True, which only "
         "_yielder_for_url_endpoint passes - together with an EndpointSGraph; for an RdflibSgraph the method is "
         "unreachable from the API (argument correlation the context-insensitive call graph cannot see)",
+    # ------------------------------------------------------------------ R-SENT
+    "R-SENT|BigTtlTriplesYielder._next_line_token|a_line.find('>', start_index)":
+        "the token starts with '<': a valid Turtle statement always closes an IRI reference with '>' on the same line (dialect of C07)",
+    "R-SENT|NtTriplesYielder._look_for_last_index_of_uri_token|target_substring.find('>')":
+        "the token starts with '<': every IRIREF of a valid N-Triples statement is closed by '>'",
+    "R-SENT|NtTriplesYielder._look_for_last_index_of_literal_token|target_substring[index_of_quotes + 1:].find('\"')":
+        "the token starts with a quote: a valid N-Triples literal always has its closing quote on the line",
+    "R-SENT|parse_literal|an_elem.find('\"', 1)":
+        "parse_literal is only called (tune_token) on tokens that start with a quote, produced by scanners that located the closing quote",
+    "R-SENT|NodeSelectorParser._parse_single_variable_select_query|string_query.find('{')":
+        "runs after rdflib's prepareQuery accepted the text as a query: a SELECT/ASK/CONSTRUCT query always contains '{'",
+    "R-SENT|NodeSelectorParser._parse_variable_in_single_variable_query|string_query.find('?')":
+        "`find('?') + 1` - callers hand in either a query checked to contain exactly one '?' or the internally built `SELECT ?f ...`",
 }
 
 
